@@ -210,13 +210,21 @@ class MEIExporter:
                 # Sort by onset
                 note_start_times = np.vectorize(lambda x: x.start.t)(voice_notes)
                 unique_onsets = np.unique(note_start_times)
+                # the layer is written element after element: time in which the
+                # voice has neither a note nor a rest is filled with <space>
+                position = measure.start.t
                 for onset in unique_onsets:
+                    if onset > position:
+                        self._handle_gap(position, onset, voice_el)
                     # group by start time
                     notes = voice_notes[note_start_times == onset]
                     if len(notes) > 1:
                         self._handle_chord(notes, voice_el)
                     else:
                         self._handle_note_or_rest(notes[0], voice_el)
+                    position = max(position, max(n.end.t for n in notes))
+                if position < measure.end.t:
+                    self._handle_gap(position, measure.end.t, voice_el)
 
         self._handle_tuplets(measure_el, start=measure.start.t, end=measure.end.t)
         self._handle_beams(measure_el, start=measure.start.t, end=measure.end.t)
@@ -228,6 +236,26 @@ class MEIExporter:
         self._handle_barline(measure_el, start=measure.start.t, end=measure.end.t)
         self._handle_fingering(measure_el, start=measure.start.t, end=measure.end.t)
         return measure_el
+
+    def _handle_gap(self, start, end, xml_voice_el):
+        """Fill the time from start to end (in divs) with space elements."""
+        remaining = int(end - start)
+        dur = 1
+        while remaining > 0 and dur <= 256:
+            value = self.qdivs * 4 / dur
+            if value == int(value) and remaining >= value:
+                space_el = etree.SubElement(xml_voice_el, "space")
+                space_el.set(XMLNS_ID, "space-" + self.elc_id())
+                space_el.set("dur", str(dur))
+                remaining -= int(value)
+            else:
+                dur *= 2
+        if remaining > 0:
+            warnings.warn(
+                "A gap of {} divs in a voice cannot be written as spaces.".format(
+                    remaining
+                )
+            )
 
     def _handle_chord(self, chord, xml_voice_el):
         chord_el = etree.SubElement(xml_voice_el, "chord")
